@@ -7,7 +7,7 @@ import qrun
 import c05
 
 PROP = 'C15'
-RULE = ('Invariant monitor after EVERY observation of the C05 workload (trie-exhaustive streams over {0,1,2} and {-1,0,1,5} x 7 p; '
+RULE = ('Invariant monitor after EVERY observation of the C05 workload (trie-exhaustive streams over {0,1}, {0,1,2} and {-1,0,1,5} x 7 p; '
         'random / sorted / reversed / zig-zag / trending / heavy-duplicate / two-value / constant / 1e30-magnitude / new-minimum-burst / '
         'signed-zero streams, p incl. 0 and 1): len() == observations so far; is_empty() <=> len()==0; p() bit-equal to the '
         'constructor argument; quantile() NaN iff empty, else min_seen <= quantile() <= max_seen; estimate() == quantile(); once five '
@@ -68,7 +68,7 @@ def run(tier, seed):
             'streams_p_extreme': 20, 'streams_reversed': 5, 'streams_dups': 5}
     return common.finish(PROP, tier, seed, total, RULE, t0, ASSUME, min_events=need,
                          extra={'builds': [v for v, _ in cfg.get('variants', [])],
-                                'trie_depth': {'{0,1,2}': cfg.get('d3'), '{-1,0,1,5}': cfg.get('d4')}})
+                                'trie_depth': {'{0,1}': cfg.get('d2'), '{0,1,2}': cfg.get('d3'), '{-1,0,1,5}': cfg.get('d4')}})
 
 
 def rejudge(case, recs, res, variant, v):
